@@ -89,8 +89,8 @@ class NonThreadedExecutor:
 
     def _take_rolledback(self):
         """Keep the nodes rolled back by the exception that got out"""
-        for exc, _, nodes in self.failures:
-            if exc is self.excinfo[1]:
+        for exc, stacklen, nodes in self.failures:
+            if exc is self.excinfo[1] and not stacklen:
                 self.rolledback.extend(nodes)
 
     def _start_exec(self, node):
@@ -360,6 +360,27 @@ class CallStack(deque):
             failures[:] = [f for f in failures
                            if f[1] <= stacklen or f is keep]
 
+    @staticmethod
+    def _is_raised_anew(tb):
+        """True if the formula being rolled back raised a caught exception
+
+        An exception object that reached the formula before and is raised
+        again by it, not passed on, has the frame of the formula twice
+        in its traceback: where it is raised now, and where it arrived.
+        """
+        mxdir = os.path.dirname(modelx.__file__)
+        while tb and mxdir in tb.tb_frame.f_code.co_filename:
+            tb = tb.tb_next     # _eval_formula, on_eval_formula
+        if tb is None:
+            return False
+        frame = tb.tb_frame
+        tb = tb.tb_next
+        while tb and mxdir not in tb.tb_frame.f_code.co_filename:
+            if tb.tb_frame is frame:
+                return True
+            tb = tb.tb_next
+        return False
+
     def rollback(self):
         node = deque.pop(self)
         self.idxstack.pop()
@@ -369,7 +390,9 @@ class CallStack(deque):
         # a formula caught or is passing on (it may evaluate cells while
         # it does): they are not part of the traceback of this one
         for failure in reversed(self.executor.failures):
-            if failure[0] is exc:
+            # The same object raised anew is another failure
+            if (failure[0] is exc and failure[1] == len(self) + 1
+                    and not self._is_raised_anew(sys.exc_info()[2])):
                 break
         else:
             failure = [exc, 0, deque()]
@@ -468,6 +491,10 @@ class ErrorStack(deque):
             if mxdir in frame.filename and frame.name == "on_eval_formula":
                 self.on_eval_flag = True
             elif not mxdir in frame.filename and self.on_eval_flag:
+                if not rolledback:
+                    # The rest are frames of an earlier failure with
+                    # the same exception object
+                    break
                 node = rolledback.pop()
                 self.append(
                     (node, frame.lineno, tb.tb_frame.f_locals.copy())
